@@ -112,6 +112,39 @@ def gen_sparse_dataset(rng: random.Random, n_max: int = 6, m_max: int = 5) -> di
     return {"rankings": rankings, "as_elements": rng.random() < 0.3, "ctor": "Dataset", "pool": pool_name + "/sparse"}
 
 
+def gen_cyclic_blocks_dataset(rng: random.Random, sizes=None) -> dict:
+    """Several blocks, each ranked as rotations of a cycle (a component that cannot be all tied), blocks always in
+    the same order: ParCons gets several non-trivial components of different sizes (e.g. 4 then 3)."""
+    sizes = sizes or rng.choice([[4, 3], [3, 4], [3, 3], [3], [4], [3, 2, 3]])
+    n = sum(sizes)
+    kind, pool_name, pool = pick_pool(rng, n)
+    blocks, at = [], 0
+    for sz in sizes:
+        blocks.append(pool[at:at + sz])
+        at += sz
+    m = rng.choice([3, 3, 4, 5])
+    rankings = []
+    for j in range(m):
+        r = []
+        for b in blocks:
+            k = j % len(b)
+            rot = b[k:] + b[:k]
+            if rng.random() < 0.15 and len(rot) > 1:
+                i = rng.randrange(len(rot) - 1)
+                rot[i], rot[i + 1] = rot[i + 1], rot[i]
+            part = [[e] for e in rot]
+            if rng.random() < 0.15 and len(part) > 1:
+                i = rng.randrange(len(part) - 1)
+                part[i:i + 2] = [part[i] + part[i + 1]]
+            if rng.random() < 0.1:
+                continue  # this ranking misses the whole block
+            r += part
+        rankings.append(r)
+    if not any(b for r in rankings for b in r):
+        rankings[0] = [[e] for e in pool]
+    return {"rankings": rankings, "as_elements": rng.random() < 0.3, "ctor": "Dataset", "pool": pool_name + "/cyclic"}
+
+
 # ---------------------------------------------------------------------------------------------- schemes
 
 def _p(x):
@@ -140,7 +173,12 @@ def scale(s: dict, k: float) -> dict:
 def gen_scheme(rng: random.Random, dyadic: bool = True) -> dict:
     """Valid scheme: B0=0, B1>0, B3<=B4, T0=T1, T2=0, T3=T4, all >= 0. Dyadic k/8 values keep sums exact."""
     fam = rng.random()
-    if fam < 0.35:
+    if not dyadic and fam < 0.2:
+        # near-degenerate: a tie costs almost exactly the same as an order (several optima a few 1e-6 apart)
+        eps = rng.choice([4e-6, -3e-6, 2e-5, 7e-6])
+        s = preset(rng.choice(["pseudo", "unifying", "induced"]), rng.choice([0.5, 1.0]) + eps)
+        s["family"] = "preset-perturbed"
+    elif fam < 0.35:
         s = preset(rng.choice(PRESETS), rng.choice([0.5, 1.0, 1.0, 0.25, 0.75]))
         s["family"] = "preset"
     elif fam < 0.5:
@@ -182,6 +220,13 @@ AUXILIARIES = [{"alg": "BioConsert"}, {"alg": "BordaCount"}, {"alg": "KwikSortRa
 
 def gen_starters(rng: random.Random, pool=None) -> List[dict]:
     pool = pool or SIMPLE_STARTERS
+    if rng.random() < 0.2:
+        # same class twice with different parameters / several randomised restarts: a list a user really writes
+        base = rng.choice([[{"alg": "BordaCount"}, {"alg": "BordaCount", "use_bucket_id": True}],
+                           [{"alg": "BordaCount", "use_bucket_id": True}, {"alg": "BordaCount"}],
+                           [{"alg": "KwikSortRandom"}, {"alg": "KwikSortRandom"}, {"alg": "KwikSortRandom"}]])
+        extra = [dict(rng.choice(pool))] if rng.random() < 0.3 else []
+        return [dict(x) for x in base] + extra
     k = rng.choice([1, 1, 2, 3])
     return [dict(rng.choice(pool)) for _ in range(k)]
 
